@@ -4,6 +4,7 @@
   splits them into rewrite rules.
 -/
 import CatVerif.Model.Api
+import CatVerif.Proofs.Attr
 namespace Cat
 open St
 
@@ -79,9 +80,9 @@ open St
 @[simp] theorem setPos_pos (s : St) (f : Fsm) (n : Nat) : (s.setPos f n).pos f = n := by
   cases f <;> simp [St.setPos, St.pos]
 
-theorem setPos_cmd (s : St) (n : Nat) : (s.setPos .cmd n).position = n ∧ (s.setPos .cmd n).uposition = s.uposition := by
+@[simp] theorem setPos_cmd (s : St) (n : Nat) : (s.setPos .cmd n).position = n ∧ (s.setPos .cmd n).uposition = s.uposition := by
   simp [St.setPos]
-theorem setPos_uns (s : St) (n : Nat) : (s.setPos .uns n).uposition = n ∧ (s.setPos .uns n).position = s.position := by
+@[simp] theorem setPos_uns (s : St) (n : Nat) : (s.setPos .uns n).uposition = n ∧ (s.setPos .uns n).position = s.position := by
   simp [St.setPos]
 
 /-- `slotWrite` only touches variable storage, the log and the fault flag -/
@@ -106,7 +107,7 @@ theorem setPos_uns (s : St) (n : Nat) : (s.setPos .uns n).uposition = n ∧ (s.s
   simp only
   split <;> simp
 
-theorem printN_pos_other (D : Desc) (s : St) (str : List Byte) :
+@[simp] theorem printN_pos_other (D : Desc) (s : St) (str : List Byte) :
     (printN D s .cmd str).1.uposition = s.uposition ∧ (printN D s .uns str).1.position = s.position := by
   unfold printN
   simp only
@@ -146,5 +147,37 @@ theorem printN_pos_other (D : Desc) (s : St) (str : List Byte) :
     · have h2 := ih (printFmt D s f txt).1
       simp_all
     · simp_all
+
+@[simp] theorem printFmt_pos_other (D : Desc) (s : St) (txt : List Byte) :
+    (printFmt D s .cmd txt).1.uposition = s.uposition ∧ (printFmt D s .uns txt).1.position = s.position := by
+  unfold printFmt
+  simp only
+  constructor <;> (repeat' split) <;> simp
+
+@[simp] theorem printAll_pos_other (D : Desc) (xs : List (List Byte)) : ∀ s : St,
+    (printAll D s .cmd xs).1.uposition = s.uposition ∧ (printAll D s .uns xs).1.position = s.position := by
+  induction xs with
+  | nil => intro s; simp [printAll]
+  | cons x r ih =>
+    intro s
+    simp only [printAll]
+    constructor <;> split <;> simp_all
+
+@[simp] theorem printHexBytes_pos_other (D : Desc) (wo : Bool) (bs : List Byte) : ∀ s : St,
+    (printHexBytes D .cmd wo s bs).1.uposition = s.uposition ∧ (printHexBytes D .uns wo s bs).1.position = s.position := by
+  induction bs with
+  | nil => intro s; simp [printHexBytes]
+  | cons b r ih =>
+    intro s
+    simp only [printHexBytes]
+    generalize hexFixed 2 (if wo = true then 0 else b) = txt
+    have h1 := printFmt_pos_other D s txt
+    constructor
+    · split
+      · rw [(ih _).1]; exact h1.1
+      · exact h1.1
+    · split
+      · rw [(ih _).2]; exact h1.2
+      · exact h1.2
 
 end Cat
